@@ -227,7 +227,7 @@ def gen_apply(tier, rng, n):
             sdt = "int32"
         out.append({"op": "x_apply", "fn": fn, "level": level, "col": col, "spans": sp, "sdtype": sdt,
                     "sform": rng.choice(["ndarray", "ndarray", "field"]) if level.startswith("field") or level == "h5field" else "ndarray",
-                    "tform": rng.choice(["ndarray", "ndarray", "ndarray", "field", "field", "list"]) if level.startswith("session") else "ndarray"})
+                    "tform": rng.choice(["ndarray"] * 8 + ["field"] * 5 + ["list"]) if level.startswith("session") else "ndarray"})
     # spans of a narrow dtype whose LAST boundary is the dtype's largest value
     for sdt, top in (("int8", 127), ("uint8", 255)) + ((("int16", 32767), ("uint16", 65535)) if tier != "quick" else ()):
         for fn in pick(rng, SRC_FNS + IDX_FNS + NOSRC_FNS, 3 if tier == "quick" else 9):
@@ -246,9 +246,11 @@ def gen_concat(tier, rng, n):
         col = idx_col(rng, m)
         if rng.random() < 0.4:
             col["v"] = [rng.choice(["a,b", 'q"q', "", ",", '"', "x", "é,"]) for _ in range(m)]
+        backing = rng.choice(["mem", "h5"])
         out.append({"op": "x_concat", "col": col, "spans": rand_spans(rng, m) if m else [0], "sdtype": rng.choice(INT_DTYPES),
-                    "src_cs": rng.choice([None, 1, 2, 3]), "dest_cs": rng.choice([None, 1, 4, 16]), "mult": rng.choice([None, 2, 16]),
-                    "backing": rng.choice(["mem", "h5"])})
+                    "src_cs": rng.choice([None, 1, 2, 3] if backing == "h5" else [1, 2, 3, 64]),      # (a memory field has no chunk size)
+                    "dest_cs": rng.choice([None, 1, 4, 16] if backing == "h5" else [1, 4, 16]), "mult": rng.choice([None, 2, 16]),
+                    "backing": backing})
     return out
 
 
@@ -273,10 +275,10 @@ def gen_filter_index(tier, rng, n):
             idx = [x - m if rng.random() < 0.5 and x - m >= lo else x for x in idx]       # negative subscripts, as numpy allows
         col = any_col(rng, min(m, 12)) if m <= 5 else None
         out.append({"op": "x_index", "kind": rng.choice(["indexed", "num", "fixed"]), "n": m, "col": col, "idtype": idt, "index": idx,
-                    "iform": rng.choice(["ndarray"] * 6 + ["field"] * 3 + ["list"]),
+                    "iform": rng.choice(["ndarray"] * 12 + ["field"] * 6 + ["list"]),
                     "entry": rng.choice(["field", "session", "session_arr", "session_dest", "frame", "frame_inplace", "h5field", "field_target",
                                          "field_inplace"])})
-        fdt = rng.choice(["bool", "bool", "int8", "uint8", "int16", "uint16", "int32", "uint32", "int64", "uint64", "float32", "float64"])
+        fdt = rng.choice(["bool", "bool", "bool", "int8", "uint8", "int16", "uint16", "int32", "uint32", "int64", "float32", "float64"] * 2 + ["uint64"])
         m = rng.choice([0, 1, 4, 9, 130])
         flo, fhi = bounds(fdt) if fdt not in FLOAT_DTYPES else (0, 2)
         flt = [rng.choice([0, 1, 1, fhi, flo]) for _ in range(m)]
@@ -284,7 +286,7 @@ def gen_filter_index(tier, rng, n):
             flt = [rng.choice(["0.0", "1.0", "nan", "-0.0", "0.5", "inf"]) for _ in range(m)]
         col = any_col(rng, m) if m <= 9 else None
         out.append({"op": "x_filter", "kind": rng.choice(["indexed", "num", "fixed"]), "n": m, "col": col, "fdtype": fdt, "filter": flt,
-                    "fform": rng.choice(["ndarray"] * 6 + ["field"] * 3 + ["list"]),
+                    "fform": rng.choice(["ndarray"] * 12 + ["field"] * 6 + ["list"]),
                     "entry": rng.choice(["field", "session", "session_arr", "session_dest", "frame", "frame_inplace", "h5field", "field_target",
                                          "field_inplace"])})
     return out
@@ -418,7 +420,7 @@ def gen_smerge(tier, rng, n):
             rk = same_kind_key(rng, lk, nr, dup=rng.random() < 0.5)
         if ent == "ordered_right":
             lk, rk = rk, lk
-        out.append({"op": "x_smerge", "entry": ent, "lk": lk, "rk": rk, "lu": is_unique(lk) and rng.random() < 0.7, "ru": is_unique(rk) and rng.random() < 0.9,
+        out.append({"op": "x_smerge", "entry": ent, "lk": lk, "rk": rk, "lu": is_unique(lk) and rng.random() < 0.7, "ru": is_unique(rk) and (ent == "ordered_inner" and rng.random() < 0.7 or rng.random() < 0.97),
                     "left": [any_col(rng, len(lk["v"]), kinds=("num", "num", "fixed", "indexed", "timestamp"), dts=NUM_DTYPES)],
                     "right": [any_col(rng, len(rk["v"]), kinds=("num", "num", "fixed", "indexed", "timestamp"), dts=NUM_DTYPES)],
                     "form": rng.choice(["ndarray", "field", "field_sinks", "streamed", "array_sinks"])})
@@ -551,7 +553,7 @@ def gen_import(tier, rng, n):
                 c.update(strlen=rng.choice([1, 2, 4]))
                 c["cells"] = [rng.choice(["", "a", "ab", "abcd", "abcde", "é", "ab ", " a", "日本", "x y"]) for _ in range(rows)]
             elif kind == "indexed":
-                c["cells"] = [rng.choice(["", "a", "ab", "é", "日本", "a b", "x" * 20, " a "]) for _ in range(rows)]
+                c["cells"] = [rng.choice(["", "a", "ab", "é", "日本", "a b", "x" * 9, " a "]) for _ in range(rows)]
             elif kind in ("categorical", "leaky"):
                 vt = rng.choice(["int8", "int16", "int32"])
                 c.update(vtype=vt, cats={"": 0, "a": 1, "b": bounds(vt)[1], "é": bounds(vt)[0], "ab": 2})
@@ -564,7 +566,7 @@ def gen_import(tier, rng, n):
                         "9999-12-31 23:59:59", "0001-01-01 00:00:00", "1969-12-31 23:59:59.999999+00:00"]
                 c["cells"] = [rng.choice(pool) for _ in range(rows)]
             cols.append(c)
-        out.append({"op": "x_import", "cols": cols, "crs": rng.choice([1, 2, 3, 1 << 20]), "quote": rng.random() < 0.3})
+        out.append({"op": "x_import", "cols": cols, "crs": rng.choice([4, 6, 9, 16, 1 << 20]), "quote": rng.random() < 0.3})
     return out
 
 
@@ -597,7 +599,18 @@ def gen_arith(tier, rng, n):
             b["v"] = [rng.choice(["0.0", "-0.0"]) if bdt in FLOAT_DTYPES else 0 for _ in range(m)]
         sc = rng.choice([0, 1, -1, 2, 255, 256, 2 ** 31 - 1, 2 ** 31, 2 ** 63 - 1, -2 ** 63, 2 ** 64 - 1]) if oform in ("pyint", "npscalar", "0d") else \
             rng.choice(["0.0", "-0.0", "nan", "inf", "1e308", "1e39", "2.5", "5e-324"]) if oform == "pyfloat" else rng.choice([0, 1])
-        out.append({"op": "x_arith", "fn": rng.choice(ARITH_OPS), "a": a, "b": b, "oform": oform, "scalar": sc, "sdt": rng.choice(NUM_DTYPES),
+        fn = rng.choice(ARITH_OPS)
+        bitwise = fn.lstrip("r") in ("and", "or", "xor", "invert") or fn == "or"
+        if bitwise and rng.random() < 0.85:
+            idts = [d for d in FIELD_DTYPES if d not in FLOAT_DTYPES]
+            a = num_col(rng, m, rng.choice(idts))
+            b = num_col(rng, m, rng.choice(idts + ["uint64"]))
+            if oform == "pyfloat":
+                oform = "pyint"
+                sc = rng.choice([0, 1, -1, 255, 2 ** 31 - 1])
+        if k != "num" and fn in ("invert", "logical_not", "and", "or", "xor", "rand", "ror", "rxor") and rng.random() < 0.8:
+            fn = rng.choice(["add", "sub", "lt", "eq", "mul", "truediv", "floordiv"])
+        out.append({"op": "x_arith", "fn": fn, "a": a, "b": b, "oform": oform, "scalar": sc, "sdt": rng.choice(NUM_DTYPES),
                     "backing": rng.choice(["mem", "mem", "h5"])})
     return out
 
@@ -611,9 +624,30 @@ def gen_date(tier, rng, n):
                     "filter": rng.choice([None, "bool", "int8"]), "fv": [rng.randrange(0, 2) for _ in range(m)],
                     "start": rng.choice([None, "0.0", "1600000000.0", "nan", "-inf"]), "end": rng.choice([None, "1600000000.5", "inf", "nan"]),
                     "sform": rng.choice(["py", "np", "0d"]),
-                    "period": rng.choice(["day", "days", "week", "weeks"]), "delta": rng.choice([1, 2, 7, -1, -3]),
-                    "d0": rng.choice([0, 1, 18262, 2932890]), "span": rng.choice([0, 1, 6, 7, 30]),
+                    "period": rng.choice(["day", "days", "week", "weeks"]), "delta": rng.choice([1, 2, 7, 1, 3, -1, -3]),
+                    "d0": rng.choice([0, 1, 18262, 2932890]), "span": rng.choice([1, 6, 7, 30, 30, 60]),
                     "days": [rng.randrange(0, 30) for _ in range(m)], "ddt": rng.choice(SINT + ["uint8"]), "pdt": rng.choice(SINT)})
+    return out
+
+
+def gen_ops(tier, rng, n):
+    """module-level kernels of exetera.core.operations that no Session / DataFrame / Field method reaches"""
+    out = []
+    for _ in range(n):
+        fn = rng.choice(["check_sorted", "left_size", "inner_size", "outer_size_bu", "last_as_filter", "inner_map", "left_map", "journal_idx"])
+        nl, nr = rng.choice([0, 1, 2, 5, 9]), rng.choice([0, 1, 3, 6])
+        bu = fn in ("outer_size_bu",) or rng.random() < 0.4
+        lk = key_col(rng, nl, dup=not bu, kinds=("int", "uint", "float", "fixed"))
+        rk = same_kind_key(rng, lk, nr, dup=not (bu or fn == "left_map"))
+        if fn == "check_sorted":
+            lk = {"k": "num", "dt": rng.choice(NUM_DTYPES), "v": None}
+            lk["v"] = float_vals(rng, nl, lk["dt"], 0.4) if lk["dt"] in FLOAT_DTYPES else int_vals(rng, nl, lk["dt"])
+            rk = {**lk, "v": float_vals(rng, nl, lk["dt"], 0.4) if lk["dt"] in FLOAT_DTYPES else int_vals(rng, nl, lk["dt"])}
+            if rng.random() < 0.5:
+                lk = sorted_col({**lk, "v": [x if x != "nan" else "1.0" for x in lk["v"]]})
+        if fn == "last_as_filter" and not lk["v"]:
+            lk["v"] = [lk["v"][0]] if lk["v"] else (["1.0"] if lk["dt"] in FLOAT_DTYPES else ["a"] if lk["k"] == "fixed" else [1])   # result[-1] of an empty array: undefined when compiled
+        out.append({"op": "x_ops", "fn": fn, "lk": lk, "rk": rk, "lu": is_unique(lk), "ru": is_unique(rk), "mdtype": rng.choice(["int32", "int64"])})
     return out
 
 
@@ -621,7 +655,7 @@ FAMILIES = [("spans", gen_spans, 12, 300), ("apply", gen_apply, 40, 1500), ("con
             ("filter_index", gen_filter_index, 16, 500), ("sort", gen_sort, 10, 300), ("map", gen_map, 12, 300),
             ("merge", gen_merge, 16, 600), ("smerge", gen_smerge, 16, 500), ("groupby", gen_groupby, 16, 500),
             ("aggregate", gen_aggregate, 10, 300), ("isin_unique", gen_isin_unique, 12, 300), ("journal", gen_journal, 12, 400),
-            ("import", gen_import, 16, 600), ("export", gen_export, 8, 200), ("arith", gen_arith, 40, 1500), ("date", gen_date, 10, 300)]
+            ("import", gen_import, 16, 600), ("export", gen_export, 8, 200), ("arith", gen_arith, 40, 1500), ("date", gen_date, 10, 300), ("ops", gen_ops, 12, 400)]
 
 
 BATCH = {"quick": 10, "thorough": 24, "search": 24}
@@ -1447,6 +1481,8 @@ def do_date(e, case):
     periods = dth.get_periods(d0, d1, case["period"], delta)
     if fn == "periods":
         return [str(p) for p in periods]
+    if delta < 0:
+        periods = list(reversed(periods))        # generate_period_offset_map takes the boundaries in ascending order
     pm = dth.generate_period_offset_map(periods)
     days = np.array([d % max(len(pm), 1) for d in case["days"]], dtype=case["ddt"])
     inr = None if case["filter"] is None else np.array(case["fv"], dtype=bool)
@@ -1455,10 +1491,44 @@ def do_date(e, case):
     return {"map": cv(e, pm), "off": cv(e, dth.get_period_offsets(pm.astype(case["pdt"]), days, inr))}
 
 
+def do_ops(e, case):
+    np, ops = e["np"], e["ops"]
+    fn = case["fn"]
+    l, r = arr(e, case["lk"]), arr(e, case["rk"])
+    if fn == "check_sorted":
+        return {"r": cv(e, ops.check_if_sorted_for_multi_fields(np.asarray([l, r])))}
+    if fn == "left_size":
+        return {"r": cv(e, ops.ordered_left_map_result_size(l, r))}
+    if fn == "inner_size":
+        return {"r": cv(e, ops.ordered_inner_map_result_size(l, r))}
+    if fn == "outer_size_bu":
+        return {"r": cv(e, ops.ordered_outer_map_result_size_both_unique(l, r))}
+    if fn == "last_as_filter":
+        return {"r": cv(e, ops.ordered_get_last_as_filter(l))}
+    if fn == "journal_idx":
+        return {"r": cv(e, ops.ordered_generate_journalling_indices(l, r))}
+    if fn == "inner_map":
+        n = int(ops.ordered_inner_map_result_size(l, r))
+        a, b = np.zeros(n, dtype=case["mdtype"]), np.zeros(n, dtype=case["mdtype"])
+        if case["lu"] and case["ru"]:
+            ret = ops.ordered_inner_map_both_unique(l, r, a, b)
+        elif case["lu"]:
+            ret = ops.ordered_inner_map_left_unique(l, r, a, b)
+        else:
+            ret = ops.ordered_inner_map(l, r, a, b)
+        return {"ret": cv(e, ret), "l": cv(e, a), "r": cv(e, b)}
+    res = np.zeros(len(l), dtype="int64")          # left_map: the right key is unique
+    if case["lu"]:
+        ret = ops.generate_ordered_map_to_left_both_unique(l, r, res, ops.INVALID_INDEX)
+    else:
+        ret = ops.generate_ordered_map_to_left_right_unique(l, r, res, ops.INVALID_INDEX)
+    return {"ret": cv(e, ret), "map": cv(e, res)}
+
+
 IMPL = {"x_spans": do_spans, "x_apply": do_apply, "x_concat": do_concat, "x_index": do_filter_index, "x_filter": do_filter_index,
         "x_sort": do_sort, "x_map": do_map, "x_merge": do_merge, "x_smerge": do_smerge, "x_groupby": do_groupby,
         "x_aggregate": do_aggregate, "x_isin": do_isin, "x_unique": do_unique, "x_journal": do_journal, "x_import": do_import,
-        "x_export": do_export, "x_arith": do_arith, "x_date": do_date}
+        "x_export": do_export, "x_arith": do_arith, "x_date": do_date, "x_ops": do_ops}
 
 
 ERRMAP = [(IndexError, "index_error"), (KeyError, "key_error"), (ValueError, "value_error"), (TypeError, "type_error"),
